@@ -1472,7 +1472,12 @@ def pid_exists(pid):
     """
     if pid < 0:
         return False
-    elif pid == 0 and POSIX:
+    try:
+        _psplatform.cext.check_pid_range(pid)
+    except OverflowError:
+        # too big to be a PID (os.kill() would raise OverflowError)
+        return False
+    if pid == 0 and POSIX:
         # On POSIX we use os.kill() to determine PID existence.
         # According to "man 2 kill" PID 0 has a special meaning
         # though: it refers to <<every process in the process
